@@ -4,6 +4,7 @@ import json
 
 import gen
 from common import realize
+from common import v3s
 from props.evalcommon import py_exec, compare_stream
 from props import c15
 
@@ -149,6 +150,18 @@ def search(ctx):
             ctx.violation('truth_table.raises', f'get_truth_table raised {tt["err"]}', input={'c': j})
         if 'err' in gtt:
             ctx.violation('gates_tt.raises', f'get_gates_truth_table raised {gtt["err"]}', input={'c': j})
+        # bench conversion is another interpreter of gate types: it has to denote the same function
+        if 'ok' in tt and outs:
+            try:
+                from common import build_via_api
+                cb = build_via_api(j)
+                cb.into_bench()
+                tb = [''.join(v3s(x) for x in row) for row in cb.get_truth_table()]
+                if tb != tt['ok']:
+                    ctx.violation('into_bench.function', f'into_bench changed the truth table {tt["ok"]} -> {tb}', input={'c': j})
+            except Exception as e:  # noqa: BLE001
+                # which circuits into_bench accepts (e.g. constants need an input to hang on) is C14's clause
+                ctx.count('into_bench_raised:' + type(e).__name__)
 
 
 def replay(ctx, rp):
